@@ -176,6 +176,20 @@ PROPS = {
         "expect_probes": ["concurrent_tier"],
         "assumptions": ["scores of memory-enabled (decay) indexes are judged by C15, not here", "exact regime = <=2M nodes ever inserted and efConstruction >= 2M"],
     },
+    "C15": {
+        "level": "exploration", "quick": 1500, "thorough": 100000, "batch": 25,
+        "rule": ("a memory-enabled index (global half-life 10s/60s/600s, model exponential/linear/step/ebbinghaus/default/unknown, optional layers "
+                 "with their own half-life, a no-decay layer, pinned-by-default) receives 3-10 memories (with twins) whose _created_at is absent / past / "
+                 "exactly one half-life ago / in the future, _pinned as bool or string, per-memory model overrides, layers, preset access counts, "
+                 "numbers as float64 or Go int; then the SIMULATED CLOCK is advanced by 0, 1/8..10 half-lives between reinforcements and observations. "
+                 "At each observation VSearchWithScores (breakdown) and fused VSearch scores are checked per memory: factor in [0,1]; equals the "
+                 "documented formula for the model at age = now - newer(_created_at,_last_accessed); = 1 when pinned / no-decay layer / reference not in "
+                 "the past; never increases without reinforcement; score = similarity x factor; ordered by score; reinforce adds exactly 1 and sets "
+                 "_last_accessed to the simulated now; reinforced twin never below its unreinforced twin. Plus (input generation, counted separately) "
+                 "direct calls of the decay function with extreme ages. Non-trivial: >=1 factor checked; distinct = program+config hash."),
+        "real_vs_stub": REAL,
+        "assumptions": ["formulas and the reference-time rule are taken from pkg/engine/README.md", "ages are whole simulated seconds (the code reads time.Now().Unix())"],
+    },
 }
 
 
@@ -185,6 +199,12 @@ NOT_APPLICABLE["C20"] = ("pure functions of their input (text analysis, chunking
                          "no schedule, fault or interleaving for a simulator to decide; property-based testing territory, see DESIGN.md section 7")
 
 MANIFEST_TEXT = {
+    "C15": {
+        "text": "Every law is about age = now - reference time and the code reads the clock directly, so the simulated clock ages memories through fractions, exact multiples and many half-lives while a reference implementation of the documented formulas is compared with the score breakdowns of both search paths.",
+        "design_ref": "DESIGN.md section 6 C15",
+        "note": "Configurations and memory sets are sampled. The direct calls of the unexported decay function are plain input generation and are reported under their own counter.",
+        "technique": "deterministic simulation: synctest clock ageing + seeded memory/reinforcement histories, reference decay model oracle",
+    },
     "C06": {
         "text": "Seeded exploration of the universal negatives of search (nothing deleted, out of filter, out of scope, duplicated or mis-scored is ever returned) over model-tracked histories, plus a scheduled tier in which searches interleave with writers, deleters and the phases of vacuum/refine.",
         "design_ref": "DESIGN.md section 6 C06",
